@@ -1,0 +1,12 @@
+//go:build verif
+
+// Contracts for package errlist (comment-only file, build tag "verif").
+package errlist
+
+//@ func (*List).Add
+//@   trusted the body uses reflection; assumed to touch only the list itself
+//@   requires e != nil
+//@   modifies e.errors
+//@ func (List).Err
+//@   trusted assumed to build a wrapper error (never one of the sentinel errors) without side effects
+//@   ensures !sentinel(res0)
